@@ -8,6 +8,7 @@ import OpusProofs.RangeCoderCodes
 import OpusProofs.SilkSymsEncRoundTrip
 import OpusProofs.OpusFrameSilk
 import OpusProofs.OpusFrameRed
+import OpusProofs.OpusFrameCeltExample
 /-
   Property C08 — "Range coder: the decoder inverts the encoder symbol for symbol, within budget".
 
@@ -624,6 +625,54 @@ example : (encodeAll (List.replicate 100 170) 100 (packetOps (silkCfg 1101 1 100
                  | _ => false)
      | _ => false) = true := by
   decide +kernel
+
+open Opus.SilkSyms Opus.SilkSymsEnc Opus.SilkSymsEncProofs Opus.OpusFrameEnc Opus.OpusFrameProofs in
+/-- `opus_frame_lockstep_silk_red` with NO CELT hypothesis left: the redundancy frame is the packet `w.bytes` that C17's
+    CELT encoder model `encFrame` (header, allocation, fine energy, band data, finalisation) produces on a coder of its own
+    from the CELT decisions `s0.ds`, `redundant_rng` is that model's final `rng`; `CeltFrameRT` is discharged by C17's
+    `celt_frame_roundtrip` (`OwnCoderFrame` bundles its hypotheses for `P0 = []`: a non-silent frame, no coder error, the
+    final length is the budgeted size or leaves the VBR margin, tapset and stereo decisions in range).  So for a SILK-only
+    frame with redundancy, "the decoder ends the packet with the final range the encoder reports" holds at the symbol level
+    end to end: SILK symbols (this property and C03's model), `celt_to_silk`, and every CELT symbol of the redundancy frame
+    (C17), `rangeFinal = enc.rng ^ redundant_rng` on both sides.  The remaining hypotheses are the DSP decisions (inputs),
+    the encoder's normal path (`herr`, `hfit`) and the length contract `hgate` (C02 `redundancy_mirror_silk`). -/
+theorem opus_frame_lockstep_silk_red_celt (buf : List Nat) (maxData bandwidth nCh ms10 spf48 : Nat) (pk : PacketIn)
+    (st : SilkSt) (c2s : Nat) (w : OpusProofs.CeltHdr.World) (ccfg : Opus.CeltSymsEnc.EncCfg) (s0 : Opus.CeltSymsEnc.St)
+    (fr : Opus.CeltBandsEnc.EncFrame)
+    (hbw : bandwidth = 1101 ∨ bandwidth = 1102 ∨ bandwidth = 1103)
+    (hms : ms10 = 100 ∨ ms10 = 200 ∨ ms10 = 400 ∨ ms10 = 600)
+    (hs : maxData - 1 ≤ buf.length) (hb : BytesOk buf) (hok : PacketOk (silkCfg bandwidth nCh ms10) pk)
+    (hc2s : c2s ≤ 1) (hown : OwnCoderFrame w ccfg s0 fr)
+    (hcc : ccfg.start = 0 ∧ ccfg.end_ = Opus.CeltSyms.endBandOf bandwidth ∧ ccfg.C = nCh ∧ ccfg.LM = 1)
+    (hn : (encodeAll buf (maxData - 1) (packetOps (silkCfg bandwidth nCh ms10) pk ++ redSigOps false true 1 c2s w.bytes.length)).nbitsTotal < 4294967296)
+    (herr : (encodeAll buf (maxData - 1) (packetOps (silkCfg bandwidth nCh ms10) pk ++ redSigOps false true 1 c2s w.bytes.length)).error = 0)
+    (hfit : tell (encRun (encInit buf (maxData - 1)) (packetOps (silkCfg bandwidth nCh ms10) pk ++ redSigOps false true 1 c2s w.bytes.length)) ≤
+      8 * ((maxData - 1 : Nat) : Int))
+    (hgate : tell (encRun (encInit buf (maxData - 1)) (packetOps (silkCfg bandwidth nCh ms10) pk)) + 17 ≤
+      8 * (((tell (encRun (encInit buf (maxData - 1)) (packetOps (silkCfg bandwidth nCh ms10) pk ++ redSigOps false true 1 c2s w.bytes.length)) + 7) / 8) +
+        (w.bytes.length : Int))) :
+    ∃ o, decodeOpusFrame 1000 bandwidth nCh ms10 false st
+        (silkRedFrame buf maxData (silkCfg bandwidth nCh ms10) pk c2s w.bytes fr.fin.rng).payload = .ok o ∧
+      o.redundancy = 1 ∧ o.celtToSilk = c2s ∧ o.redundancyBytes = w.bytes.length ∧ o.dec.error = 0 ∧
+      o.dec.rng = (encRun (encInit buf (maxData - 1)) (packetOps (silkCfg bandwidth nCh ms10) pk ++ redSigOps false true 1 c2s w.bytes.length)).rng ∧
+      o.evs = packetEvs (silkCfg bandwidth nCh ms10) pk (fun j =>
+        ((encRun (encInit buf (maxData - 1)) (prefixOps (silkCfg bandwidth nCh ms10) pk j)).rng,
+         tell (encRun (encInit buf (maxData - 1)) (prefixOps (silkCfg bandwidth nCh ms10) pk j)))) ∧
+      decRangeFinal 1000 bandwidth nCh spf48 (silkRedFrame buf maxData (silkCfg bandwidth nCh ms10) pk c2s w.bytes fr.fin.rng).payload o =
+        .ok (silkRedFrame buf maxData (silkCfg bandwidth nCh ms10) pk c2s w.bytes fr.fin.rng).rangeFinal :=
+  opus_frame_lockstep_silk_red_celt_all buf maxData bandwidth nCh ms10 spf48 pk st c2s w ccfg s0 fr hbw hms hs hb hok hc2s hown hcc
+    hn herr hfit hgate
+
+open Opus.SilkSyms Opus.SilkSymsEnc Opus.OpusFrameEnc Opus.OpusFrameProofs Opus.OpusFrameProofs.Example in
+/-- a 24-byte mono narrowband redundancy frame of 72 coder calls from C17's encoder model behind the example SILK packet:
+    all hypotheses hold (`PacketOk` of the packet: above) -/
+example : (∃ fr, OwnCoderFrame worldR cfgR s0R fr ∧ fr.fin.rng = 1642388224 ∧ fr.ops.length = 72 ∧ tell fr.fin = 192) ∧
+    (cfgR.start = 0 ∧ cfgR.end_ = Opus.CeltSyms.endBandOf 1101 ∧ cfgR.C = 1 ∧ cfgR.LM = 1) ∧
+    worldR.bytes.length = 24 ∧
+    (encodeAll (List.replicate 100 170) 100 (packetOps (silkCfg 1101 1 100) exampleMonoPacket ++ redSigOps false true 1 1 24)).error = 0 ∧
+    tell (encRun (encInit (List.replicate 100 170) 100) (packetOps (silkCfg 1101 1 100) exampleMonoPacket ++ redSigOps false true 1 1 24)) = 248 ∧
+    (247 : Int) + 17 ≤ 8 * ((248 + 7) / 8 + 24) :=
+  ⟨ownR, by decide +kernel, by decide +kernel, by decide +kernel, by decide +kernel, by decide⟩
 
 open Opus.SilkSyms Opus.SilkSymsEnc Opus.SilkSymsEncProofs Opus.OpusFrameEnc Opus.OpusFrameProofs in
 /-- Frame-level lock step for a HYBRID frame: SILK part, redundancy signalling and CELT part share one range coder
